@@ -118,6 +118,8 @@ class LedgerMonitor:
         # every probe timeout (a handle_timer() call in which the loss-detection timer expired with
         # no loss time armed: the PTO count went up) grants ONE datagram beyond the window; a grant
         # is used up by the first later call that puts in-flight bytes on the wire beyond the window
+        self.spaces_before = None
+        self.reinit_with_other_spaces = 0   # re-initialisations that found packets outside the Initial space
         self.grants = {}
         self.pto_before = None
         self.timeouts = 0
@@ -149,6 +151,8 @@ class LedgerMonitor:
         return total
 
     def before_api(self, sim, ep, name, args, kw):
+        # which packet-number-space objects recovery tracks, and what each holds, before the call
+        self.spaces_before = [(sp, list(sp.sent_packets.values())) for sp in ep.conn._loss.spaces]
         if name == "handle_timer":
             self.pto_before = ep.conn._loss._pto_count
         if name == "datagrams_to_send":
@@ -162,6 +166,23 @@ class LedgerMonitor:
             return
         self.calls += 1
         loss = ep.conn._loss
+        if self.spaces_before is not None:
+            # the tie to the recovery model's `discard`: a space object the connection stops tracking
+            # (Retry, Version Negotiation, key discard) must have been emptied through discard_space /
+            # acknowledgement / loss — observed on the object itself, whatever the connection believes
+            # can have been sent in it
+            now_ids = {id(sp) for sp in loss.spaces}
+            gone = [(i, sp, pk) for i, (sp, pk) in enumerate(self.spaces_before) if id(sp) not in now_ids]
+            if gone and any(pk for i, sp, pk in gone if i != 0):
+                self.reinit_with_other_spaces += 1
+            for i, sp, pk in gone:
+                left = [p for p in sp.sent_packets.values()]
+                if left:
+                    self.problem = (f"{ep.name}: {name} replaced packet number space #{i} while it still tracked "
+                                    f"{len(left)} packet(s), {sum(p.sent_bytes for p in left if p.in_flight)} in-flight "
+                                    f"bytes: they were never discarded, acknowledged or declared lost "
+                                    f"(bytes_in_flight now {loss.bytes_in_flight})")
+            self.spaces_before = None
         if name == "handle_timer" and self.pto_before is not None:
             if loss._pto_count > self.pto_before:
                 self.grants[ep.name] = self.grants.get(ep.name, 0) + 1
@@ -194,7 +215,7 @@ class LedgerMonitor:
         tracked = sum(p.sent_bytes for sp in loss.spaces for p in sp.sent_packets.values() if p.in_flight)
         if loss.bytes_in_flight != tracked or loss.bytes_in_flight < 0:
             self.problem = (f"{ep.name}: bytes_in_flight={loss.bytes_in_flight} but tracked in-flight packets total "
-                            f"{tracked} after {name}")
+                            f"{tracked} after {name}" + (f" [{self.problem}]" if self.problem else ""))
         elif loss.congestion_window < 2 * ep.conn._max_datagram_size:
             self.problem = f"{ep.name}: congestion window {loss.congestion_window} below two datagrams after {name}"
         for sp in loss.spaces:
@@ -212,11 +233,29 @@ def run_ledger_scenario(variant, seed, algo):
     r = random.Random(f"c08/{variant}/{seed}")
     mon = LedgerMonitor()
     copts = {"congestion_control_algorithm": algo}
+    skw = {}
+    early = variant in ("retry0", "vn0")      # resuming client with 0-RTT data in its first flight
+    if early:
+        variant = variant[:-1]
+        tick, store = _ticket(1280)           # from a complete earlier connection of the same pair
+        copts["session_ticket"] = tick
+        skw["session_ticket_fetcher"] = store.get
     if variant == "vn":
         copts["supported_versions"] = [0x6B3343CF, 1]   # v2 first, server answers VN offering v1
-    s = simmod.Sim(seed, monitors=[mon], client_options=copts)
+    s = simmod.Sim(seed, monitors=[mon], client_options=copts, server_kwargs=skw)
     try:
-        s.connect()
+        if early:
+            s.api(s.client, "connect", simmod.SERVER_ADDR, now=s.now)
+            # 1..3 datagrams of early stream data travel with the first flight (application pn space)
+            for _ in range(r.randrange(1, 3)):
+                s.api(s.client, "send_stream_data", 0, bytes(r.randrange(1, 1700)), end_stream=False)
+            for _ in range(r.randrange(1, 4)):
+                s.transmit(s.client)
+                s.now += 0.002
+                if r.random() < 0.5:
+                    s.api(s.client, "send_stream_data", 0, bytes(r.randrange(1, 1200)), end_stream=False)
+        else:
+            s.connect()
         c = s.client.conn
         if variant == "retry":
             s.pending.clear()
@@ -303,6 +342,11 @@ def run_ledger_scenario(variant, seed, algo):
                     s.transmit(ep)
                 else:
                     s.adversarial_step(p_drop=0.3)
+        if early:
+            for _ in range(r.randrange(1, 4)):
+                s.api(s.client, "send_stream_data", 0, bytes(r.randrange(1, 3000)), end_stream=False)
+                s.transmit(s.client)
+                s.now += 0.002
         for _ in range(6):
             s.fire_timer(s.client)
     finally:
@@ -312,13 +356,14 @@ def run_ledger_scenario(variant, seed, algo):
 
 def connection_ledger(ctx, r, n):
     """handshakes with optional Retry / Version Negotiation, then lossy traffic"""
-    probes = 0
+    probes = reinit = 0
     for k in range(n):
         seed = r.randrange(1 << 30)
-        variant = ["plain", "retry", "vn", "full", "pto", "pto"][k % 6]
+        variant = ["plain", "retry", "vn", "full", "pto", "pto", "retry0", "vn0"][k % 8]
         algo = ["reno", "cubic"][(k // 6) % 2] if variant == "pto" else r.choice(["reno", "cubic"])
         mon, s = run_ledger_scenario(variant, seed, algo)
         probes += mon.probes_beyond_window if variant == "pto" else 0
+        reinit += mon.reinit_with_other_spaces
         ctx.count(("conn-ledger", seed, variant), mon.calls > 10)
         if mon.problem:
             ctx.witness(mon.problem, {"harness": "ledger", "scenario": variant, "seed": seed, "algo": algo,
@@ -326,6 +371,10 @@ def connection_ledger(ctx, r, n):
                         {"oracle": "connection-ledger", "scenario": variant})
     ctx.cov["traces_validated_against_impl"] += n
     ctx.notes["pto_probe_datagrams_beyond_window"] = probes
+    ctx.notes["reinitialisations_with_0rtt_packets_tracked"] = reinit
+    if reinit == 0:
+        ctx.broken.append({"kind": "audit", "hit": "no Retry / Version Negotiation re-initialisation found packets "
+                                                   "tracked outside the Initial space (0-RTT data in flight)"})
     if probes == 0:
         ctx.broken.append({"kind": "audit", "hit": "the blackout scenario no longer produces a probe datagram beyond a full window"})
 
@@ -577,7 +626,9 @@ def main(tier):
         "loss-detection timeout / space discard at arbitrary times for Reno and CUBIC (well-formed: fresh packet "
         "numbers; malformed: reused numbers, bad space index — correspondence only). Non-trivial = at least one "
         "packet reported ACKED and one LOST; distinct by op-sequence hash. Plus real client/server connections (plain lossy "
-        "traffic, client receiving a Retry, client receiving Version Negotiation, window filled by a blackout) with the "
+        "traffic, client receiving a Retry, client receiving Version Negotiation — each also for a resuming client "
+        "with 1..3 datagrams of 0-RTT stream data in flight —, window filled by a blackout) with the space-continuity tie "
+        "(a packet number space object recovery stops tracking must have been emptied first), the "
         "ledger oracle after every API call and the flight-budget oracle on every datagrams_to_send(); a resuming client "
         "whose 0-RTT data leaves 1199 .. max_datagram_size+1 bytes of window (exact, by sizing the last write from the "
         "observed packet overhead) when its padded Initial+Handshake+1-RTT datagram is built, for Reno/CUBIC x "
